@@ -3,6 +3,8 @@ package main
 // govc check <property>: regenerate and discharge every claimed obligation, write evidence, report violations.
 
 import (
+	"os/exec"
+	"context"
 	"encoding/json"
 	"flag"
 	"fmt"
@@ -22,8 +24,19 @@ type PropConfig struct {
 	Level       string   `json:"level"`
 	Assumptions []string `json:"assumptions"`
 	NotCovered  []string `json:"not_covered"`
-	Bounded     []string `json:"bounded"`
+	Bounded     []BoundedCheck `json:"bounded"`
 	Explanation string   `json:"explanation"`
+}
+
+// BoundedCheck: a bounded stand-in for an assumed contract: a Go test injected into the package with `go test -overlay`
+// that enumerates every case up to the stated bound on the real code. Reported as "bounded", never as proved.
+type BoundedCheck struct {
+	Name     string `json:"name"`
+	Pkg      string `json:"pkg"`      // package directory relative to the repository root
+	File     string `json:"file"`     // test file relative to /verif
+	Run      string `json:"run"`      // test name
+	Bound    string `json:"bound"`    // the bound, in words
+	StandsIn string `json:"stands_in_for"`
 }
 
 type Finding struct {
@@ -256,6 +269,39 @@ func cmdCheck(args []string) int {
 			fmt.Printf("VIOLATION property=%s replay=%s obligation=%s no-failing-input-found\n", id, p, o.Name)
 		}
 	}
+	// ---- bounded stand-ins (labelled bounded; a failure is a failing input on the real code)
+	var boundedRes []map[string]interface{}
+	for _, bc := range pc.Bounded {
+		ovDir := filepath.Join(verifRoot, "work", id)
+		os.MkdirAll(ovDir, 0o755)
+		ov := filepath.Join(ovDir, "bounded_"+sanitize(bc.Name)+".overlay.json")
+		target := filepath.Join(repoRoot, bc.Pkg, "zz_govc_bounded_test.go")
+		writeJSON(ov, map[string]interface{}{"Replace": map[string]string{target: filepath.Join(verifRoot, bc.File)}})
+		ctx, cancel := context.WithTimeout(context.Background(), 10*time.Minute)
+		cmd := exec.CommandContext(ctx, "go", "test", "-overlay", ov, "-vet=off", "-count=1", "-timeout", "540s", "-run", "^"+bc.Run+"$", "-v", "./"+bc.Pkg)
+		cmd.Dir = repoRoot
+		cmd.Env = append(os.Environ(), "GOFLAGS=-mod=mod", "GOPROXY=off")
+		tb0 := time.Now()
+		out, err := cmd.CombinedOutput()
+		cancel()
+		res := map[string]interface{}{"name": bc.Name, "bound": bc.Bound, "stands_in_for": bc.StandsIn, "seconds": round3(time.Since(tb0).Seconds()), "label": "bounded (not a proof)"}
+		okLine := ""
+		for _, l := range strings.Split(string(out), "\n") {
+			if strings.HasPrefix(l, "BOUNDED-OK") {
+				okLine = l
+			}
+		}
+		if err == nil && okLine != "" {
+			res["result"] = okLine
+		} else {
+			violations++
+			p := filepath.Join(replayDir, "bounded_"+sanitize(bc.Name)+".txt")
+			os.WriteFile(p, out, 0o644)
+			res["result"] = "FAILED, see " + p
+			fmt.Printf("VIOLATION property=%s replay=%s obligation=bounded:%s\n", id, p, bc.Name)
+		}
+		boundedRes = append(boundedRes, res)
+	}
 	if violations > 0 {
 		exit = 1
 	}
@@ -303,7 +349,7 @@ func cmdCheck(args []string) int {
 		"per_backend_discharged":   perSolver,
 		"per_backend_seconds":      roundMap(solverSecs),
 		"samples":                  samples,
-		"bounded":                  pc.Bounded,
+		"bounded":                  boundedRes,
 		"unsupported_or_missing":   genFailNames(genFails),
 		"solver_timeout_s":         timeout,
 		"integers":                 "exact machine integers (bit-vectors of the Go width); nothing treated as mathematical",
